@@ -73,33 +73,79 @@ func newSig() *dns.RRSIG {
 		Inception: 1700000000, Expiration: 1900000000}
 }
 
+// roStates: the argument states in which the current read-only step is executed (from the
+// vector: Gen_Heap!ROStates; the recorder uses allVerifyStates).  verifyOK counts, per state, the
+// verifications that succeeded (non-vacuity: reported as a note).
+var (
+	roStates        []string
+	allVerifyStates = []string{"ttl=orig", "ttl<orig", "ttl>orig", "bad-signature"}
+	verifyOK        = map[string]int{}
+	verifyRuns      = map[string]int{}
+)
+
 // signVerify runs Sign (and Verify when asked) on rrset; the arguments of Verify other
 // than the rrset -- the RRSIG and the key -- are observed here, the rrset by the caller.
+// Verify is run once per state of roStates: the signature is made over an equal rrset whose
+// TTL is the rrset's ("ttl=orig"), twice that ("ttl<orig": the rrset's TTL lies below the
+// original TTL) or half of it ("ttl>orig"), with the RRSIG's own TTL following the copy's or
+// (ttl>orig) staying at the rrset's; "bad-signature": one octet of the signature changed.
 func signVerify(rrset []dns.RR, verify bool, sum *hx.Summary, cs string) bool {
 	if len(rrset) == 0 {
 		return false
 	}
-	sig := newSig()
 	if !verify {
-		return sig.Sign(signKey, rrset) == nil
+		return newSig().Sign(signKey, rrset) == nil
 	}
-	fix := make([]dns.RR, len(rrset)) // the signature to verify is made over an equal rrset
-	for i, r := range rrset {
-		fix[i] = dns.Copy(r)
+	states := roStates
+	if len(states) == 0 {
+		states = allVerifyStates[:1]
 	}
-	if err := sig.Sign(signKey, fix); err != nil {
-		return false
+	all := true
+	for _, st := range states {
+		sig := newSig()
+		fix := make([]dns.RR, len(rrset)) // the signature to verify is made over an equal rrset
+		ttl := rrset[0].Header().Ttl
+		sig.Hdr.Ttl = ttl
+		switch st {
+		case "ttl<orig":
+			ttl = ttl*2 + 1
+		case "ttl>orig":
+			ttl /= 2
+		}
+		for i, r := range rrset {
+			fix[i] = dns.Copy(r)
+			fix[i].Header().Ttl = ttl
+		}
+		if err := sig.Sign(signKey, fix); err != nil {
+			all = false
+			continue
+		}
+		if st == "bad-signature" && len(sig.Signature) > 4 {
+			c := byte('A')
+			if sig.Signature[3] == 'A' {
+				c = 'B'
+			}
+			sig.Signature = sig.Signature[:3] + string(c) + sig.Signature[4:]
+		}
+		s0, k0 := rw.Walk(sig), rw.Walk(signDNS)
+		err := sig.Verify(signDNS, rrset)
+		s1, k1 := rw.Walk(sig), rw.Walk(signDNS)
+		if s0.Exact() != s1.Exact() || s0.Bk != s1.Bk {
+			name, _ := rw.FirstDiff(s0, s1)
+			sum.Mis("readonly/verify-mutates:rrsig-argument", fmt.Sprintf("RRSIG.Verify (%s, error %v) changed its receiver (%s)", st, err, name), map[string]interface{}{"case": cs})
+		}
+		if k0.Exact() != k1.Exact() || k0.Bk != k1.Bk {
+			sum.Mis("readonly/verify-mutates:dnskey-argument", fmt.Sprintf("RRSIG.Verify (%s) changed the key", st), map[string]interface{}{"case": cs})
+		}
+		verifyRuns[st]++
+		if err == nil {
+			verifyOK[st]++
+		}
+		if (err == nil) != (st != "bad-signature") {
+			all = false
+		}
 	}
-	s0, k0 := rw.Walk(sig), rw.Walk(signDNS)
-	err := sig.Verify(signDNS, rrset)
-	s1, k1 := rw.Walk(sig), rw.Walk(signDNS)
-	if s0.Exact() != s1.Exact() || s0.Bk != s1.Bk {
-		sum.Mis("readonly/verify-mutates:rrsig-argument", "RRSIG.Verify changed its receiver", map[string]interface{}{"case": cs})
-	}
-	if k0.Exact() != k1.Exact() || k0.Bk != k1.Bk {
-		sum.Mis("readonly/verify-mutates:dnskey-argument", "RRSIG.Verify changed the key", map[string]interface{}{"case": cs})
-	}
-	return err == nil
+	return all
 }
 
 func (o *rrObj) Root() interface{} { return o.rr }
@@ -513,6 +559,7 @@ func cases() []tcase {
 type step struct {
 	Op    string  `json:"op"`
 	Ro    string  `json:"ro"`
+	States []string `json:"states"` // ro: the argument states in which the operation is executed (Gen_Heap!ROStates)
 	X     int     `json:"x"`
 	Y     int     `json:"y"`
 	Slot  int     `json:"slot"`
@@ -624,7 +671,9 @@ func (r *runner) episode(tc *tcase, v *vector) {
 			if s.Y != 0 {
 				other = objs[s.Y]
 			}
+			roStates = s.States
 			ok = objs[s.X].RO(s.Ro, other, r.sum, tc.name)
+			roStates = nil
 		default:
 			hx.Die("unknown op %q", s.Op)
 		}
@@ -831,6 +880,8 @@ func replay(path string, shard, nshards int, only string) {
 	}
 	sum.Nontrivial = len(r.seen)
 	sum.Note("episodes", n)
+	sum.Note("verifications_run_by_state", verifyRuns)
+	sum.Note("verifications_succeeded_by_state", verifyOK)
 	sum.Print()
 }
 
@@ -1195,6 +1246,7 @@ func record(out string, episodes int) {
 					}
 				}
 				var ok bool
+				roStates = allVerifyStates
 				if p := hx.Catch(func() { ok = objs[x].RO(op, other, sum, tc.name) }); p != "" {
 					sum.Mis("panic:"+op+":"+tc.name, "panic: "+p, map[string]interface{}{"case": tc.name})
 				}
@@ -1206,6 +1258,8 @@ func record(out string, episodes int) {
 	rc.w.Close()
 	sum.Nontrivial = len(seen)
 	sum.Note("events", rc.n)
+	sum.Note("verifications_run_by_state", verifyRuns)
+	sum.Note("verifications_succeeded_by_state", verifyOK)
 	sum.Print()
 }
 
